@@ -419,11 +419,36 @@ def check_updates(ctx, terms=None):
     net = make(rlist[0])
     hist, hops, outs = [], [], []
     cur = 0
+    buf = None
     for step in range(rng.randint(3, 10)):
         if rng.random() < 0.35:
             cur = rng.randrange(len(rlist))
-            net.update_resistances(rlist[cur].copy())
-            hist.append(["update", cur])
+            # how the caller hands the new values over: a fresh array, a
+            # list, the array passed before edited in place, or the
+            # network's own resistances edited in place
+            how = rng.choice(["fresh", "fresh", "list", "same array",
+                              "own array"])
+            if how == "fresh":
+                net.update_resistances(rlist[cur].copy())
+            elif how == "list":
+                net.update_resistances(rlist[cur].tolist())
+            elif how == "same array":
+                if buf is None:
+                    buf = rlist[cur].copy()
+                    net.update_resistances(buf)
+                buf[:] = rlist[cur]
+                net.update_resistances(buf)
+            else:
+                own = net.resistances
+                if isinstance(own, np.ndarray) and own.shape == \
+                        rlist[cur].shape and own.dtype == rlist[cur].dtype:
+                    own[:] = rlist[cur]
+                    net.update_resistances(own)
+                else:
+                    how = "fresh"
+                    net.update_resistances(rlist[cur].copy())
+            ctx.stat("update via " + how)
+            hist.append(["update", cur, how])
             hops.append(f"HUpdate {cur}")
             outs.append(0.0)
             continue
